@@ -14,18 +14,15 @@ import (
 	"strings"
 	"sync"
 	"testing"
-	"testing/synctest"
 	"time"
 
-	"github.com/prometheus/client_golang/prometheus"
 	commoncfg "github.com/prometheus/common/config"
 	"github.com/prometheus/common/model"
 	"github.com/prometheus/common/promslog"
 
 	amcommoncfg "github.com/prometheus/alertmanager/config/common"
-	"github.com/prometheus/alertmanager/eventrecorder"
-	"github.com/prometheus/alertmanager/featurecontrol"
 	"github.com/prometheus/alertmanager/internal/verif/rep"
+	"github.com/prometheus/alertmanager/internal/verif/retrylaw"
 	"github.com/prometheus/alertmanager/notify"
 	"github.com/prometheus/alertmanager/template"
 	"github.com/prometheus/alertmanager/types"
@@ -250,216 +247,21 @@ func TestVerifC20Payload(t *testing.T) {
 	R.Write()
 }
 
-// ---- C20 (retry law through the real webhook notifier) ---------------------------------------------
-// The real Notifier (with and without its own `timeout`) inside the real notify.RetryStage, its HTTP
-// transport replaced by a scripted one: per attempt 200 / 503 / 400 / connection error / hang (until the
-// request's context ends). Virtual time. Law, without modelling the backoff schedule: nothing follows a
-// success or an unrecoverable answer and the stage returns at once; after a recoverable failure (503,
-// connection error, a hang cut off by the notifier's own timeout) the stage keeps going until the flush
-// deadline; the stage reports success iff an attempt succeeded.
+// ---- C20 (retry law through the real webhook notifier; engine in lib/retrylaw) ----------------------
 
-const (
-	wOK = iota
-	w5xx
-	w4xx
-	wConn
-	wHang
-)
-
-var wNames = []string{"200", "503", "400", "conn-error", "hang"}
-
-type wAttempt struct {
-	at, done time.Duration
-	outcome  int
-}
-
-type wRT struct {
-	seq   []int
-	epoch time.Time
-	mu    sync.Mutex
-	att   []wAttempt
-}
-
-func (s *wRT) RoundTrip(req *http.Request) (*http.Response, error) {
-	if req.Body != nil {
-		io.Copy(io.Discard, req.Body)
-		req.Body.Close()
-	}
-	s.mu.Lock()
-	i := len(s.att)
-	o := wOK
-	if i < len(s.seq) {
-		o = s.seq[i]
-	}
-	s.att = append(s.att, wAttempt{at: time.Since(s.epoch), outcome: o})
-	s.mu.Unlock()
-	defer func() {
-		s.mu.Lock()
-		s.att[i].done = time.Since(s.epoch)
-		s.mu.Unlock()
-	}()
-	time.Sleep(time.Millisecond)
-	mk := func(code int) (*http.Response, error) {
-		return &http.Response{StatusCode: code, Status: fmt.Sprint(code), Proto: "HTTP/1.1", ProtoMajor: 1, ProtoMinor: 1,
-			Header: http.Header{}, Body: io.NopCloser(strings.NewReader("{}")), Request: req}, nil
-	}
-	switch o {
-	case w5xx:
-		return mk(503)
-	case w4xx:
-		return mk(400)
-	case wConn:
-		return nil, fmt.Errorf("dial tcp 10.0.0.1:80: connect: connection refused")
-	case wHang:
-		<-req.Context().Done()
-		return nil, req.Context().Err()
-	}
-	return mk(200)
-}
-
-func wRun(t *testing.T, seq []int, own, flush time.Duration) (att []wAttempt, end time.Duration, err error, pan any) {
-	synctest.Test(t, func(t *testing.T) {
-		defer func() { pan = recover() }()
-		tmpl, e := template.FromGlobs(nil)
-		if e != nil {
-			panic(e)
+func TestVerifC20WebhookRetry(t *testing.T) {
+	retrylaw.Explore(t, "C20", "webhook-retry-law", func(own time.Duration, rt *retrylaw.RT) (notify.Notifier, notify.ResolvedSender, string) {
+		tmpl, err := template.FromGlobs(nil)
+		if err != nil {
+			panic(err)
 		}
 		tmpl.ExternalURL, _ = url.Parse("http://am.test")
 		conf := &WebhookConfig{NotifierConfig: amcommoncfg.NotifierConfig{VSendResolved: true}, URL: amcommoncfg.SecretTemplateURL("http://hook.test/x"), HTTPConfig: &commoncfg.HTTPClientConfig{}, Timeout: own}
-		n, e := New(conf, tmpl, promslog.NewNopLogger())
-		if e != nil {
-			panic(e)
+		n, err := New(conf, tmpl, promslog.NewNopLogger())
+		if err != nil {
+			panic(err)
 		}
-		rt := &wRT{seq: seq, epoch: time.Now()}
 		n.client = &http.Client{Transport: rt}
-		integ := notify.NewIntegration(n, n.conf, "webhook", 0, "r")
-		st := notify.NewRetryStage(integ, "r", notify.NewMetrics(prometheus.NewRegistry(), featurecontrol.NoopFlags{}), eventrecorder.NopRecorder())
-		now := time.Now()
-		ctx, cancel := context.WithTimeout(context.Background(), flush)
-		defer cancel()
-		ctx = notify.WithNow(ctx, now)
-		ctx = notify.WithGroupKey(ctx, "{}:{g=\"1\"}")
-		ctx = notify.WithGroupLabels(ctx, model.LabelSet{"g": "1"})
-		ctx = notify.WithReceiverName(ctx, "r")
-		ctx = notify.WithRepeatInterval(ctx, 2*time.Hour)
-		a := &types.Alert{Alert: model.Alert{Labels: model.LabelSet{"alertname": "A", "g": "1"}, StartsAt: now.Add(-time.Minute), EndsAt: now.Add(time.Hour)}, UpdatedAt: now}
-		ctx = notify.WithFiringAlerts(ctx, []uint64{1})
-		ctx = notify.WithResolvedAlerts(ctx, nil)
-		_, _, err = st.Exec(ctx, promslog.NewNopLogger(), a)
-		end = time.Since(rt.epoch)
-		att = append(att, rt.att...)
+		return n, n.conf, "webhook"
 	})
-	return
-}
-
-func wLaw(seq []int, att []wAttempt, end time.Duration, err error, own, flush time.Duration) string {
-	ms := time.Millisecond
-	for i, a := range att {
-		want := wOK
-		if i < len(seq) {
-			want = seq[i]
-		}
-		if a.outcome != want {
-			return "harness: attempt outcome out of script"
-		}
-		last := i == len(att)-1
-		switch a.outcome {
-		case wOK, w4xx:
-			if !last {
-				return fmt.Sprintf("attempt %d answered %s and is followed by another attempt", i, wNames[a.outcome])
-			}
-			if end > a.done+2*ms {
-				return fmt.Sprintf("attempt %d answered %s at %v but the stage returned only at %v", i, wNames[a.outcome], a.done, end)
-			}
-		case wHang:
-			cut := a.at + own
-			if own == 0 || cut > flush {
-				cut = flush
-			}
-			if a.done < cut-2*ms || a.done > cut+2*ms {
-				return fmt.Sprintf("attempt %d hung from %v and was given up at %v, expected %v (own timeout %v, flush deadline %v)", i, a.at, a.done, cut, own, flush)
-			}
-			fallthrough
-		case w5xx, wConn:
-			if last && end < flush-2*ms {
-				return fmt.Sprintf("attempt %d failed recoverably (%s) at %v and the stage gave up at %v, before the flush deadline %v", i, wNames[a.outcome], a.done, end, flush)
-			}
-		}
-	}
-	if len(att) == 0 {
-		return "no attempt at all"
-	}
-	ok := att[len(att)-1].outcome == wOK
-	if ok != (err == nil) {
-		return fmt.Sprintf("stage result %v, last attempt answered %s", err, wNames[att[len(att)-1].outcome])
-	}
-	return ""
-}
-
-func TestVerifC20WebhookRetry(t *testing.T) {
-	part := "webhook-retry-law"
-	R := rep.New("C20", part)
-	if rp := rep.ReplaySpec(); rp != nil {
-		if rp["part"] != part {
-			return
-		}
-		seq := rep.Ints(rp["seq"])
-		own, flush := time.Duration(rp["own_ms"].(float64))*time.Millisecond, time.Duration(rp["flush_ms"].(float64))*time.Millisecond
-		att, end, err, pan := wRun(t, seq, own, flush)
-		v := wLaw(seq, att, end, err, own, flush)
-		if pan != nil {
-			v = fmt.Sprint("panic: ", pan)
-		}
-		fmt.Printf("REPLAY attempts=%v end=%v err=%v violation=%q\n", att, end, err, v)
-		R.Executions = 1
-		if v != "" {
-			R.Violate("webhook-retry-law", v, rp)
-		}
-		R.Write()
-		return
-	}
-	maxLen := 3
-	if rep.Thorough() {
-		maxLen = 5
-	}
-	var seqs [][]int
-	var gen func(cur []int)
-	gen = func(cur []int) {
-		seqs = append(seqs, append([]int{}, cur...))
-		if len(cur) == maxLen {
-			return
-		}
-		for o := 0; o < 5; o++ {
-			if len(cur) > 0 && (cur[len(cur)-1] == wOK || cur[len(cur)-1] == w4xx) {
-				return // nothing is scripted after a final answer
-			}
-			gen(append(cur, o))
-		}
-	}
-	gen(nil)
-	for _, own := range []time.Duration{0, 3 * time.Second} {
-		for _, flush := range []time.Duration{10 * time.Second, 31 * time.Second} {
-			for _, seq := range seqs {
-				att, end, err, pan := wRun(t, seq, own, flush)
-				R.Executions++
-				R.Transitions += int64(len(att))
-				v := wLaw(seq, att, end, err, own, flush)
-				if pan != nil {
-					v = fmt.Sprint("panic: ", pan)
-				}
-				R.AddKey(fmt.Sprint(len(att), err == nil, end.Round(time.Second)))
-				if v != "" && R.NViolations < 5 {
-					var names []string
-					for _, o := range seq {
-						names = append(names, wNames[o])
-					}
-					R.Violate("webhook-retry-law", fmt.Sprintf("answers %v, webhook timeout %v, flush deadline %v: %s", names, own, flush, v),
-						map[string]any{"part": part, "seq": seq, "own_ms": own.Milliseconds(), "flush_ms": flush.Milliseconds()})
-				}
-			}
-		}
-	}
-	R.Exhaustive = true
-	R.Bound = fmt.Sprintf("every answer sequence of length <= %d over {200, 503, 400, connection error, hang} (200 afterwards) x webhook timeout {none, 3s} x flush deadline {10s, 31s}: %d sequences", maxLen, len(seqs))
-	R.Write()
 }
